@@ -110,6 +110,17 @@ def _check_desc(case, res, count=True):
         calculate_viability_and_necessity(g)
         if count:
             res.count('class:labels-from-analysis')
+    if case.get('relabel_after_analysis'):
+        # the graph was analysed once (whatever that found); the labels that decide are set afterwards, by hand
+        # or by an incremental re-evaluation, without running the whole analysis again
+        calculate_viability_and_necessity(g)
+        for nd, n in zip(case['desc']['nodes'], objs):
+            if 'is_viable' in nd:
+                n.is_viable = nd['is_viable']
+            if 'is_necessary' in nd:
+                n.is_necessary = nd['is_necessary']
+        if count:
+            res.count('class:labels-changed-after-an-analysis')
     for k, (eps, reached) in enumerate(case.get('attackers', [])):
         a = Attacker(name='att%d' % k, entry_points=[], reached_attack_steps=[])
         ids = [objs[i % len(objs)].id for i in reached]
@@ -240,6 +251,8 @@ def run(rng, res, tier, shard, nshards):
             # labels from the real analysis on an unlabelled graph
             d = agraph.gen_desc(rng, rng.choice([5, 10, 25]))
             case = {'kind': 'desc', 'desc': d, 'attackers': case['attackers'], 'analyse': True}
+        if not case.get('analyse') and rng.random() < 0.25:
+            case['relabel_after_analysis'] = True
         f = check_desc(case, res)
         res.case(digest(case) if (case.get('analyse') or nontrivial(case['desc']['nodes'])) else None)
         if len(res.samples) < 3 and nontrivial(case['desc']['nodes']):
